@@ -1007,7 +1007,7 @@ def updated_cost_containers(ctx, torch, g):
                 else:
                     history.append("(no update)")
                 if container_state(cont) != container_state(list(rates)):
-                    raise InternalError("the harness's record of the caller's cost list is out of step with the list")
+                    cont[:] = list(rates)    # only after the library changed the list in an earlier call (reported there)
             fn_name = fns[k % len(fns)]
             N, T = g.choice(dims), g.choice(dims[1:] + (6,))
             H = g.choice(dims[:4]) if n0 == 0 else len(rates)
@@ -1036,11 +1036,13 @@ def updated_cost_containers(ctx, torch, g):
             if mut:
                 ctx.mutated("functional." + fn_name, mut, case)
             now = container_state(cont)
-            if now != written and not changed_reported:
-                changed_reported = True
-                ctx.fail(f"functional.{fn_name} changes the caller's list of cost rates (the argument `cost`, which the caller updates between the calls): after the call it no "
-                         "longer holds the rates the caller wrote (type, length, elements)", case, key=f"functional.{fn_name}:cost-container-changed:updated-cost-container",
-                         detail={"written": repr(written), "after_the_call": repr(now)})
+            if now != written:
+                if not changed_reported:
+                    changed_reported = True
+                    ctx.fail(f"functional.{fn_name} changes the caller's list of cost rates (the argument `cost`, which the caller updates between the calls): after the call it no "
+                             "longer holds the rates the caller wrote (type, length, elements)", case, key=f"functional.{fn_name}:cost-container-changed:updated-cost-container",
+                             detail={"written": repr(written), "after_the_call": repr(now)})
+                cont[:] = list(rates)        # the caller's list again, so that the rest of the sequence stays meaningful
             if st != "ok":
                 ctx.fail(f"functional.{fn_name} raises on a well-shaped input when the cost rates come in a list the caller has passed to earlier calls and updated in place since "
                          "(as many rates as hedging instruments, or a single one)", case, key=f"functional.{fn_name}:error:updated-cost-container",
@@ -1295,7 +1297,7 @@ def updated_hedge_containers(ctx, torch, g):
                 else:
                     history.append("(no update)")
                 if len(book) != len(held) or any(x is not y for x, y in zip(book, held)):
-                    raise InternalError("the harness's record of the caller's collection of instruments is out of step with the collection")
+                    book[:] = list(held)     # only after the library changed the collection in an earlier call (reported there)
             nh, entry = len(held), entries[k]
             hedger, costs = hedgers[nh], [cost_of[id(x)] for x in held]
             N, sd, kwd = g.choice([1, 2, 3, 5]), g.randint(0, 10 ** 6), g.chance(0.4)
